@@ -468,8 +468,8 @@ Lemma wp_finally_drop_prop {A} (c : M A) (Qn : A -> world -> Prop) (P : Prop) (w
   wp c Qn (fun w' => WF (self w') /\ P) w -> wp (finally_drop E c) Qn (fun _ => P) w.
 Proof.
   unfold wp at 1 2. unfold finally_drop. destruct (c w) as [a w'|w'|]; auto.
-  intros [H HP]. pose proof (drop_map_safe E w' H) as Hd. unfold wp in Hd.
-  destruct (drop_map E w'); auto.
+  intros [H HP]. pose proof (unwind_map_safe E w' H) as Hd. unfold wp in Hd.
+  destruct (unwind_map E w'); auto.
 Qed.
 
 Lemma from_iter_lawful nx items (w : world) :
